@@ -35,3 +35,38 @@ pub fn arena_capacity(arena: &Arena) -> usize {
 pub fn arena_base(arena: &Arena) -> *const u8 {
     target(arena).verif_base()
 }
+
+// ---------------------------------------------------------------------------------------------
+// Memory-discipline trace: a thread-local event log the runtime and the string pool append to at
+// every memory-relevant step (frame mark/reset, pool alloc/free, promote, clone-on-read, return
+// relocation, scope pop) and control decision (branch, loop test, short circuit, call, index,
+// error exit). Recording is off until `mem_trace_start()`; nothing is logged otherwise.
+
+/// One trace event: kind and two operands (meaning depends on the kind).
+pub type MemEvent = (&'static str, u64, u64);
+
+thread_local! {
+    static MEM_TRACE: std::cell::RefCell<Option<Vec<MemEvent>>> =
+        const { std::cell::RefCell::new(None) };
+}
+
+/// Starts (or restarts) recording on this thread with an empty log.
+pub fn mem_trace_start() {
+    MEM_TRACE.with(|t| *t.borrow_mut() = Some(Vec::new()));
+}
+
+/// Stops recording and returns the log.
+#[must_use]
+pub fn mem_trace_take() -> Vec<MemEvent> {
+    MEM_TRACE.with(|t| t.borrow_mut().take().unwrap_or_default())
+}
+
+/// Appends one event if recording is on.
+#[inline]
+pub fn mem_trace(kind: &'static str, a: u64, b: u64) {
+    MEM_TRACE.with(|t| {
+        if let Some(log) = t.borrow_mut().as_mut() {
+            log.push((kind, a, b));
+        }
+    });
+}
